@@ -168,6 +168,20 @@ mod int {
     use super::*;
     use crate::types::VmInt;
 
+    pub(crate) fn from_str_radix(
+        src: &str,
+        radix: u32,
+    ) -> RuntimeResult<StdResult<VmInt, ()>, String> {
+        if (2..=36).contains(&radix) {
+            RuntimeResult::Return(VmInt::from_str_radix(src, radix).map_err(|_| ()))
+        } else {
+            RuntimeResult::Panic(format!(
+                "radix must lie in the range 2..=36, found {}",
+                radix
+            ))
+        }
+    }
+
     pub(crate) fn rem(dividend: VmInt, divisor: VmInt) -> RuntimeResult<VmInt, String> {
         if divisor != 0 {
             RuntimeResult::Return(dividend % divisor)
@@ -600,7 +614,7 @@ pub fn load_int(vm: &Thread) -> Result<ExternModule> {
             from_str_radix => primitive!(
                 2,
                 "std.int.prim.from_str_radix",
-                |src, radix| std::int::prim::from_str_radix(src, radix).map_err(|_| ())
+                int::from_str_radix
             ),
             shl => primitive!(2, std::int::shl),
             arithmetic_shr => primitive!(2, std::int::arithmetic_shr),
